@@ -83,6 +83,9 @@ func (sh *Shell) RunScript(script Str) (out Str, status gosym.Value) {
 
 func (sh *Shell) tick() {
 	sh.steps++
+	if sh.steps&255 == 0 && sh.C.WallExceeded() {
+		unsup("shell step budget exceeded (wall-clock limit of the path; non-terminating script?)")
+	}
 	if sh.steps > 200000 {
 		unsup("shell step budget exceeded (non-terminating script?)")
 	}
